@@ -320,8 +320,12 @@ class Engine:
             if '.' in modname else modname
         self._number_loops(mod)
         env = None
-        for _ in self.exec_block(mod.tree.body, env, mod, None):
-            raise Unsupported('yield at module level')
+        try:
+            for _ in self.exec_block(mod.tree.body, env, mod, None):
+                raise Unsupported('yield at module level')
+        except BaseException:
+            self.modules.pop(modname, None)
+            raise
         return mod
 
     def run_script(self, path, name='__main__', g=None):
@@ -1305,7 +1309,7 @@ class Engine:
                 if x is item or self.truth(self.eq(x, item)):
                     return True
             return False
-        if isinstance(container, dict):
+        if isinstance(container, (dict, SymDict)):
             return self.dict_find(container, item) is not _MISSING
         if isinstance(container, (set, frozenset)):
             if self.plain_hashable(item):
